@@ -253,7 +253,17 @@ def compare(c, full, parts, pauses, hyd, wit):
                 bad = abs(a - b) > tol
             if bad.any():
                 i, j = np.argwhere(bad)[0]
-                c.violate('values_differ' if key != 'status' else 'status_differs',
+                kind_ = 'values_differ' if key != 'status' else 'status_differs'
+                # mechanism test (known finding C02.power_pump_turbine_root): an open power pump sitting on the reverse root of its row
+                # in one of the two runs at that instant - Newton restarted from the default point can land on either root
+                wn_ = wit['wn']
+                qa_ = np.asarray(pd.concat([p.link['flowrate'] for p in parts]).values, dtype=float)
+                qb_ = np.asarray(full.link['flowrate'].values, dtype=float)
+                for jj, ln_ in enumerate(full.link['flowrate'].columns):
+                    l_ = wn_.get_link(ln_)
+                    if l_.link_type == 'Pump' and getattr(l_, 'pump_type', '') == 'POWER' and min(qa_[:i + 1, jj].min(), qb_[:i + 1, jj].min()) < -2.83168e-6:
+                        kind_ = 'differs_power_pump_on_reverse_root'
+                c.violate(kind_,
                           '%s[%s] at t=%s: continued %.9g, uninterrupted %.9g (pauses %s, pickle %s)' % (
                               key, f.columns[j], idx_full[i], a[i, j], b[i, j], pauses, wit['pickle']),
                           table=key, column=str(f.columns[j]), t=idx_full[i], continued=float(a[i, j]), full=float(b[i, j]),
